@@ -19,7 +19,7 @@ CLAIMED = {
          "DESIGN.md §6 C11"),
  "C20": ("Proof of the four-step fallback of resolveComponentQuery for all 16 existence patterns at once (existence is an uninterpreted "
          "predicate of the path, so the patterns are symbolic, not enumerated): result is the first existing of (rt,role),(ANY,role),(rt,any),(ANY,any), "
-         "none => error and nil, a resolved path always exists; plus contracts of queryToAbsPath, Query.Raw/AbsoluteRaw (string built from exactly "
+         "none => error and nil, a resolved path always exists; a probe the backend cannot answer (a second uninterpreted predicate of the path) ends the resolution with an error instead of falling through to a less specific entry (genuine defect, repaired); ResolveComponentQuery(nil) is an error, not a panic (genuine defect, repaired); plus contracts of queryToAbsPath, Query.Raw/AbsoluteRaw (string built from exactly "
          "component/runtype-name/role/entry) and WithFallbackRunType/RoleName (field-wise, fresh object, frame).",
          "Store content assumed constant during one resolution (ROSource.Exists is an assumed pure contract). Strings are an uninterpreted sort with "
          "uninterpreted concatenation (sufficient: spec and code build the path by the same concatenations). NOT decided here: the regular-expression "
